@@ -435,17 +435,20 @@ def _check_small_curve(rep, curve, p, b, order):
     T = type("SmallFQ", (fe.FQ,), {"field_modulus": p})
     tag = "reference %s add on y^2 = x^3 + %d over GF(%d) (order %d)" % (curve, b, p, order)
 
+    W = ((p - 1) * (p - 1) + p).bit_length() + 2      # every FQ operation reduces its result: intermediates stay below (p-1)^2 + p
+    rem = lambda t: z3.URem(t, z3.BitVecVal(p, W))
+
     def inv_bv(a, n):
         ctx = core.cur()
         a = SymZ.lift(a)
         v = SymZ.var(ctx.fresh_name("inv"), 0, n - 1)
         am = a % n
-        ctx.add_fact(z3.If(am.t == 0, v.t == 0, z3.URem(am.t * v.t, z3.BitVecVal(n, 16)) == 1))
+        ctx.add_fact(z3.If(am.t == 0, v.t == 0, rem(am.t * v.t) == 1))
         return v
 
     def pt(ctx, nm):
         x, y = SymZ.var("x" + nm, 0, p - 1), SymZ.var("y" + nm, 0, p - 1)
-        ctx.assume(z3.URem(y.t * y.t, z3.BitVecVal(p, 16)) == z3.URem(x.t * x.t * x.t + b, z3.BitVecVal(p, 16)))
+        ctx.assume(rem(y.t * y.t) == rem(rem(rem(x.t * x.t) * x.t) + b))
         return (T(x), T(y))
 
     def same(A, B):
@@ -457,7 +460,7 @@ def _check_small_curve(rep, curve, p, b, order):
         if A is None:
             return z3.BoolVal(True)
         x, y = SymZ.lift(A[0].n).t, SymZ.lift(A[1].n).t
-        return z3.And(z3.URem(y * y, z3.BitVecVal(p, 16)) == z3.URem(x * x * x + b, z3.BitVecVal(p, 16)), z3.ULT(x, p), z3.ULT(y, p))
+        return z3.And(rem(y * y) == rem(rem(rem(x * x) * x) + b), z3.ULT(x, p), z3.ULT(y, p))
 
     def run(ctx):
         P, Q, R_ = pt(ctx, "1"), pt(ctx, "2"), pt(ctx, "3")
@@ -494,7 +497,8 @@ def _check_small_curve(rep, curve, p, b, order):
         g, mm = pth.ctx.prove_side()
         if g != "unsat":
             rep.unknown("%s: bit-vector arithmetic may wrap" % tag)
-    core.explore(run, ctx_kwargs=dict(backend=("bv", 16), branch_timeout_ms=60000, max_decisions=200), on_path=on_path, max_paths=5000)
+    core.explore(run, ctx_kwargs=dict(backend=("bv", W), branch_timeout_ms=60000, max_decisions=200), on_path=on_path, max_paths=5000)
+    rep.bound("bit-vector width %d (no-wrap side conditions proved per path)" % W)
     rep.stub("prime_field_inv(a, p) -> fresh v with a*v == 1 (mod p), inv0(0) = 0 (contract: C08 prime_field_inv_small)")
 
 
@@ -510,7 +514,7 @@ def _mk_small(curve, p):
 
 for _p in (7, 13):
     obligation("C07", "small_curve_all_triples_p%d" % _p, tier="thorough", timeout=3000,
-               bound="every triple of points of the odd-order curve y^2 = x^3 + 2 over GF(%d): closure, commutativity, associativity incl. all special positions (P = Q, P = -Q, intermediate sums meeting), doubling, inverse; real reference add/double/neg of bn128_curve over an FQ subclass, exact 16-bit vectors, inversion by contract" % _p)(
+               bound="every triple of points of the odd-order curve y^2 = x^3 + 2 over GF(%d): closure, commutativity, associativity incl. all special positions (P = Q, P = -Q, intermediate sums meeting), doubling, inverse; real reference add/double/neg of bn128_curve over an FQ subclass, exact bit-vectors (8 resp. 10 bits, no-wrap side conditions), inversion by contract" % _p)(
         _mk_small("bn128", _p))
 
 
@@ -523,7 +527,7 @@ def _check_small_optimized(rep, curve, p, b, order):
     T = type("SmallFQ", (fe.FQ,), {"field_modulus": p})
     TO = type("SmallOptFQ", (ofe.FQ,), {"field_modulus": p})
     tag = "optimized %s add/double/multiply on y^2 = x^3 + %d over GF(%d) (order %d)" % (curve, b, p, order)
-    W = 16
+    W = (8 * (p - 1) * (p - 1)).bit_length() + 2     # optimized FQ: (n * on) % p with int factors up to 8 folded in first
     bv = lambda v: z3.BitVecVal(v, W)
     rem = lambda t: z3.URem(t, bv(p))
 
@@ -616,6 +620,6 @@ for _c in ("bn128", "bls12_381"):
         return f
     obligation("C07", "small_curve_optimized_vs_reference_%s_p7" % _c, tier="thorough", timeout=3000,
                bound="y^2 = x^3 + 2 over GF(7) (order 9): optimized add/double/neg on EVERY pair of projective triples (every representative, z = 0 included) against the reference affine add; "
-                     "multiply for every point and every n in [0, 19]; real optimized_%s code over an optimized-FQ subclass, exact 16-bit vectors" % _c)(_mk_so())
+                     "multiply for every point and every n in [0, 19]; real optimized_%s code over an optimized-FQ subclass, exact 11-bit vectors with no-wrap side conditions" % _c)(_mk_so())
 obligation("C07", "small_curve_all_triples_p7_bls12_381", tier="thorough", timeout=3000,
            bound="as small_curve_all_triples_p7 for the reference bls12_381_curve module")(_mk_small("bls12_381", 7))
